@@ -197,6 +197,7 @@ def stepPure (e : PEnv) (w : List String) : Option String :=
       match Keygen.extendedSeededKeygen e.H b with
       | some (t, n, s, c) => "ok " ++ showBytes (natLE 32 t ++ natLE 32 n ++ natLE 32 s ++ natLE 32 c) | none => "model-out-of-fuel")
   | ["keygen"] | ["keygen_ext"] | ["rln", "key_gen"] | ["rln", "ext_key_gen"] | ["ffi_key_gen"] | ["ffi_ext_key_gen"] => some "n/a"
+  | "witmap" :: _ => some "n/a"      -- the QAP reduction is not modelled (DESIGN §9); compared across thread counts only
   | ["oracle", _] => some "n/a"
   | _ => none
 
